@@ -22,6 +22,7 @@ func init() {
 	}
 	oracles["c13.inproc"] = oracleC13InProc
 	oracles["c13.cli"] = oracleC13CLI
+	oracles["c13.all"] = oracleC13All
 	properties["C13"] = &Property{
 		ID:       "C13",
 		LeanMods: []string{"CrsProps.C13"},
@@ -230,6 +231,97 @@ func genYamlTestFile(r *rand.Rand, ruleId string) (string, bool) {
 	return joinLines(r, lines, 0.2, chance(r, 0.8)), nontrivial
 }
 
+// --all on trees of several test files, some already numbered, some not, in every walk position: each file must come
+// out as if it had been renumbered alone (no state carried from file to file), --check must write nothing and fail
+// iff some file would change, and a second run must change nothing.
+// args: check ("0"/"1"), then path, content pairs (walk order)
+func oracleC13All(p *Pair, env *Env, a [][]byte) *Failure {
+	files := a
+	sb := mkSandbox(env)
+	defer os.RemoveAll(sb)
+	t := Tree{"regex-assembly/": nil}
+	anyChange := false
+	want := map[string][]byte{}
+	for i := 0; i+1 < len(files); i += 2 {
+		path := string(files[i])
+		t[path] = files[i+1]
+		base := filepath.Base(path)
+		id := base[:6]
+		exp, mixed := c13Expected(id, files[i+1])
+		if mixed {
+			return nil
+		}
+		w := []byte(strings.Join(exp, "\n") + "\n")
+		want[path] = w
+		if !bytes.Equal(w, files[i+1]) {
+			anyChange = true
+		}
+	}
+	if err := t.write(sb); err != nil {
+		return &Failure{What: "harness: cannot write sandbox", Detail: err.Error()}
+	}
+	before := snapshot(sb)
+	c := runCLI(env, sb, nil, "-l", "disabled", "util", "renumber-tests", "-c", "-a")
+	if d := diffSnap(before, snapshot(sb)); len(d) > 0 {
+		return &Failure{What: "renumber-tests --check --all wrote to the tree", Detail: strings.Join(d, ", ")}
+	}
+	if (c.exit != 0) != anyChange {
+		return &Failure{What: "renumber-tests --check --all verdict differs from 'some file would change'", Detail: fmt.Sprintf("exit %d, would change: %v", c.exit, anyChange)}
+	}
+	c = runCLI(env, sb, nil, "-l", "disabled", "util", "renumber-tests", "-a")
+	if c.exit != 0 {
+		return &Failure{What: "renumber-tests --all failed on plain files", Detail: fmt.Sprintf("exit %d %s", c.exit, tail(string(c.stderr), 300))}
+	}
+	for path, w := range want {
+		got, _ := os.ReadFile(filepath.Join(sb, path))
+		if !bytes.Equal(got, w) {
+			return &Failure{What: "renumber-tests --all does not number a file as it would on its own", Detail: fmt.Sprintf("%s: got %q want %q", path, got, w)}
+		}
+	}
+	c = runCLI(env, sb, nil, "-l", "disabled", "util", "renumber-tests", "-c", "-a")
+	if c.exit != 0 {
+		return &Failure{What: "renumber-tests --check --all fails right after renumber-tests --all", Detail: fmt.Sprintf("exit %d", c.exit)}
+	}
+	after1 := snapshot(sb)
+	c = runCLI(env, sb, nil, "-l", "disabled", "util", "renumber-tests", "-a")
+	if d := diffSnap(after1, snapshot(sb)); len(d) > 0 || c.exit != 0 {
+		return &Failure{What: "a second renumber-tests --all changes files or fails", Detail: fmt.Sprintf("exit %d %s", c.exit, strings.Join(d, ", "))}
+	}
+	return nil
+}
+
+func genC13Trees(r *rand.Rand, n int) []Case {
+	var cases []Case
+	for i := 0; i < n; i++ {
+		t := Tree{}
+		k := 2 + r.Intn(3)
+		for j := 0; j < k; j++ {
+			id := fmt.Sprintf("92%04d", 100+10*j+r.Intn(9))
+			nt := 1 + r.Intn(4)
+			var lines []string
+			lines = append(lines, "---", "tests:")
+			correct := chance(r, 0.5)
+			for q := 1; q <= nt; q++ {
+				v := q
+				if !correct {
+					v = 3 + 2*q
+				}
+				if chance(r, 0.3) {
+					lines = append(lines, fmt.Sprintf("  - test_title: %s-%d", id, v))
+				} else {
+					lines = append(lines, fmt.Sprintf("  - test_id: %d", v), "    desc: x")
+				}
+			}
+			t["tests/regression/tests/REQUEST-920-X/"+id+pick(r, []string{".yaml", ".yml"})] = []byte(strings.Join(lines, "\n") + "\n")
+		}
+		files := treeArgs(t)
+		cases = append(cases, Case{Kind: "tree:renumber-all",
+			Ops:     []Op{{"cli.renumberAll", append([][]byte{[]byte("0")}, files...)}, {"cli.renumberAll", append([][]byte{[]byte("1")}, files...)}},
+			Oracles: []Op{{"c13.all", files}}})
+	}
+	return cases
+}
+
 func genC13(r *rand.Rand, tier string, env *Env) []Case {
 	n, nCli := 400, 40
 	if tier == "thorough" {
@@ -256,5 +348,10 @@ func genC13(r *rand.Rand, tier string, env *Env) []Case {
 		}
 		cases = append(cases, c)
 	}
+	nTrees := 12
+	if tier == "thorough" {
+		nTrees = 150
+	}
+	cases = append(cases, genC13Trees(r, nTrees)...)
 	return cases
 }
